@@ -228,6 +228,8 @@ class C16(E1Prop):
             sinks.append(('job repr', repr(j) + str(j.details)))
         for h in w.status_history:
             sinks.append(('status report', ' '.join(str(x) for x in h)))
+        for dsc in w.status_descriptions:
+            sinks.append(('bot status summary', dsc))
         sinks.append(('status page', self.status_page(w)))
         return sinks
 
